@@ -82,7 +82,7 @@ pub fn check_script(mode: Mode, su: &Setup, op: Op, script_idx: &[usize], cut: b
     }
     match mode {
         Mode::C10 => {
-            let (want_sent, want_outcome) = ref_run(op, su.own, su.foreign, su.typ, &su.page_lists, &script);
+            let (want_sent, want_outcome, also_allowed) = ref_run(op, su.own, su.foreign, su.typ, &su.page_lists, &script);
             let shown = || script.iter().map(|r| rep_str(*r)).collect::<Vec<_>>().join(", ");
             // messages: compare the common prefix up to the shorter one, then lengths
             let n = run.sent.len().min(want_sent.len());
@@ -93,7 +93,7 @@ pub fn check_script(mode: Mode, su: &Setup, op: Op, script_idx: &[usize], cut: b
                 let cls = if run.sent.len() > want_sent.len() { "continues-after" } else { "stops-early-after" };
                 out.push(("message-sequence", format!("{}:{}-{}", opn, cls, last), format!("{} with replies [{}]: sent {} messages, the protocol prescribes {} (next: {:?})", opn, shown(), run.sent.len(), want_sent.len(), if run.sent.len() > want_sent.len() { msg_str(&run.sent[n]) } else { msg_str(&want_sent[n]) })));
             }
-            if !cut && run.outcome != want_outcome {
+            if !cut && run.outcome != want_outcome && Some(&run.outcome) != also_allowed.as_ref() {
                 out.push(("outcome", format!("{}:{}-instead-of-{}", opn, run.outcome.class(), want_outcome.class()), format!("{} with replies [{}]: returned {:?}, the protocol prescribes {:?}", opn, shown(), run.outcome, want_outcome)));
             }
         }
@@ -102,7 +102,13 @@ pub fn check_script(mode: Mode, su: &Setup, op: Op, script_idx: &[usize], cut: b
             if !cut {
                 if let Some(alt) = foreign_to_unknown(&script) {
                     let run2 = run_real(op, su.own, su.foreign, su.typ, &su.page_lists, &alt);
-                    if run2.sent != run.sent || run2.outcome.class() != run.outcome.class() {
+                    // "never treated as its own": a foreign reply is either handled like an unrelated frame, or rejected on
+                    // the spot (protocol error, nothing sent after it). In the second case the conversation up to that reply
+                    // must still be the one with unrelated frames in place of the earlier foreign replies.
+                    let n = run.sent.len();
+                    let rejected_on_the_spot = run.outcome == Outcome::Protocol && n >= 1 && script.get(n - 1).map(crate::ctlsys::is_foreign).unwrap_or(false);
+                    let same = if rejected_on_the_spot { run2.sent.len() >= n && run2.sent[..n] == run.sent[..] } else { run2.sent == run.sent && run2.outcome.class() == run.outcome.class() };
+                    if !same {
                         out.push(("I5-foreign-reply-never-own", format!("{}:{}-vs-{}", opn, run.outcome.class(), run2.outcome.class()), format!("{} with replies [{}]: {} messages / {}, but with the foreign-address replies replaced by an unrelated frame {} messages / {}", opn, script.iter().map(|r| rep_str(*r)).collect::<Vec<_>>().join(", "), run.sent.len(), run.outcome.class(), run2.sent.len(), run2.outcome.class())));
                     }
                 }
